@@ -57,6 +57,8 @@ def dtype_path(recipe):
     converted = None
     for st in recipe[1:]:
         if st[0] == "convert":
+            if CONVERT_TARGET[st[1]] is None:
+                continue          # object replacement without a precision change
             converted = CONVERT_TARGET[st[1]]
             path.append(converted)
         elif st[0] == "restart" and st[1] == "state_dict":
@@ -182,7 +184,7 @@ def check_history(w):
 
 def check_c15(w, rec, st):
     kind = rec["kind"]
-    if kind in ("convert", "drop", "forget", "set_default_dtype", "mutate_output", "signal", "wait", "barrier"):
+    if kind in ("convert", "drop", "forget", "set_default_dtype", "mutate_output", "signal", "wait", "barrier", "extra"):
         return
     if kind == "backward":
         return check_backward(w, rec, st, "recipe")
